@@ -38,8 +38,11 @@ def run_case(c):
     held = None
     # r4: back to the first assignment, written INTO the array the caller passed last time (the usual
     # "edit my resistance matrix, then tell the network" pattern)
-    for k, key in enumerate(("r", "r2", "r3", "r4")):
-        R = np.array(c["r" if key == "r4" else key], dtype=float)
+    # r5: the second assignment rescaled by 3/2 (non-integral values, whatever type the network started with)
+    for k, key in enumerate(("r", "r2", "r3", "r4", "r5")):
+        R = np.array(c["r" if key == "r4" else "r2" if key == "r5" else key], dtype=float)
+        if key == "r5":
+            R = 1.5 * R
         try:
             if net is None:
                 net = ResNetwork(enc.represent(R, c["case"])[0], silence_level=3)
